@@ -168,6 +168,12 @@ class Reporter:
         self.pid, self.seed, self.ev = pid, seed, ev
         self.known = [f for f in load_known().get("findings", []) if f.get("property") == pid]
         self.k = 0
+        # replays of earlier runs of this property/seed are stale
+        d = os.path.join(VERIF, "replay")
+        if os.path.isdir(d):
+            for f in os.listdir(d):
+                if f.startswith("%s-%s-" % (pid, seed)):
+                    os.unlink(os.path.join(d, f))
         self.sigs = set()
         self.known_hit = {}
         self.exit = 0
